@@ -2,5 +2,5 @@
 # run every claimed check (quick tier) on the current tree; prints one line per check
 cd "$(dirname "$0")/.." || exit 2
 for P in $(python3 -c "import json;print(' '.join(c['property_id'] for c in json.load(open('MANIFEST.json'))['checks']))"); do
-  ./check $P --tier ${1:-quick} 2>&1 | grep -v conda | tail -1
+  ./check $P --tier ${1:-quick} 2>&1 | grep -v conda | cut -c1-240
 done
